@@ -172,7 +172,9 @@ def r1(ctx):
     q = "_url:get_proxy_info"
     loc = ctx.index.loc(ctx.index.func(q).node)
     for exempt, opt_host, opt_port, env, secure in itertools.product((False, True), (False, True), (0, 3128), ({}, {"http_proxy": "http://u:p@hp:81"}, {"https_proxy": "http://sp:82"}, {"HTTP_PROXY": "http://HP:83"}, {"http_proxy": "http://hp:81", "https_proxy": "http://sp:82"},
-                                                                                                                          {"http_proxy": "http://u%40x@hp:81", "https_proxy": "http://u@sp:82"}), (False, True)):
+                                                                                                                          {"http_proxy": "http://u%40x@hp:81", "https_proxy": "http://u@sp:82"},
+                                                                                                                          # escaped URL delimiters inside the credentials: decoded per component, after the split
+                                                                                                                          {"http_proxy": "http://al%3Aice:%2Fs3%3Fcr%23et%40@hp:81", "https_proxy": "http://al%2Fice:p%40ss@sp:82"}), (False, True)):
         if not opt_host and opt_port:
             continue
         stubs = _fold_stubs(env)
@@ -182,7 +184,12 @@ def r1(ctx):
             v = I.resolve(run, args[0])
             import urllib.parse as up
             p = up.urlparse(v.v)
-            return new_obj(run, None, "purl", hostname=C(p.hostname), port=C(p.port), username=C(p.username), password=C(p.password))
+            try:
+                port = p.port
+            except ValueError as ex:
+                # the library refuses the port of this text (the analysed code handed it something that is no longer the variable's URL)
+                I.raise_builtin(run, "ValueError", node, C(str(ex)))
+            return new_obj(run, None, "purl", hostname=C(p.hostname), port=C(port), username=C(p.username), password=C(p.password))
 
         stubs["urllib.parse.urlparse"] = urlparse
         def unq(I, run, args, kwargs, node):
